@@ -2,7 +2,7 @@
   C01 — Symbolic tree integrity. Property theorems only (model: PgModel/Sym*.lean,
   lemmas: PgProofs/Sym*.lean).
 -/
-import PgProofs.SymEval
+import PgProofs.SymStepInv
 namespace Pg.Sym
 
 example : (Forest.empty).wf = true := by decide
@@ -15,17 +15,15 @@ def ValueFree : Op → Bool
   | .lRemove _ _ | .dPop _ _ | .lDelSlice _ _ _ _ | .setSeal _ _ => true
   | _ => false
 
-def C01_step_Full : Prop :=
-  ∀ (f : Forest) (n : Bool) (op : Op), f.wf = true → Admissible Cfg.patched f n op = true →
-    (stepA Cfg.patched f n op).forest.wf = true
-
-/-- **C01, step theorem**: on the patched tree *every* operation of the surface — for every
+/-- **C01, step theorem**: on every tree that has the four fixes the beliefs depend on (F02, F03,
+F78, F79; `Cfg.fixedWith`: the clone-flag fix, the bulk notifications and an ambient
+`pg.allow_partial` scope are arbitrary) *every* operation of the surface — for every
 forest, target, key / index / slice / rank list, offered value (plain nested values, existing
 nodes that are moved or copied, Refs), notification on or off — maps a forest in which every
 non-root node believes its actual parent and path to such a forest. (No admissibility hypothesis
 is needed for this half of the invariant; uniqueness of node objects is the other half.) -/
-theorem C01_step (f : Forest) (n : Bool) (op : Op) (hf : f.ok = true) :
-    (stepA Cfg.patched f n op).forest.ok = true := by
+theorem C01_step_cfg {lcs nb : Bool} {scp : Option Bool} (f : Forest) (n : Bool) (op : Op) (hf : f.ok = true) :
+    (stepA (Cfg.fixedWith lcs nb scp) f n op).forest.ok = true := by
   unfold stepA
   split
   · exact hf
@@ -36,7 +34,7 @@ theorem C01_step (f : Forest) (n : Bool) (op : Op) (hf : f.ok = true) :
     cases v with
     | node kind sl aw pt items =>
       simp only [step]
-      have hv := evalVE_spec Cfg.patched none (.node kind sl aw pt items) f none false false [] hf
+      have hv := evalVE_spec (Cfg.fixedWith lcs nb scp) none (.node kind sl aw pt items) f none false false [] hf
       exact addRoot_ok _ _ (ok_of_subset hf hv.2) (okRoot_of_okAt hv.1)
     | atom a => simp only [step]; exact hf
     | fresh => simp only [step]; exact hf
@@ -133,10 +131,10 @@ theorem C01_step (f : Forest) (n : Bool) (op : Op) (hf : f.ok = true) :
           · split
             · exact hf
             · next start stop stp hidx =>
-              have hp0 := slicePrepare_ok m vs f 0 hf
+              have hp0 := slicePrepare_ok (lcs := lcs) (nb := nb) (sp := scp) m vs f 0 hf
               have run_ok : ∀ (st sp : Int) (repl : List (Bool × VE)),
-                  (match sliceLoop Cfg.patched t st sp (slicePrepare Cfg.patched m f 0 vs).1 0 repl false with
-                    | .error e => (⟨(slicePrepare Cfg.patched m f 0 vs).1, .err e⟩ : Res)
+                  (match sliceLoop (Cfg.fixedWith lcs nb scp) t st sp (slicePrepare (Cfg.fixedWith lcs nb scp) m f 0 vs).1 0 repl false with
+                    | .error e => (⟨(slicePrepare (Cfg.fixedWith lcs nb scp) m f 0 vs).1, .err e⟩ : Res)
                     | .ok (f', upd) => ⟨if (n && upd) = true then notify f' [m.id] else f', .ok⟩).forest.ok = true := by
                 intro st sp repl
                 split
@@ -322,13 +320,15 @@ theorem C01_step (f : Forest) (n : Bool) (op : Op) (hf : f.ok = true) :
         simp only [step, hfind]
         split
         · exact hf
+        split
+        · exact hf
         · split
           · exact hf
           · next k c hlast =>
             have h1 : ((f.mapAt t (fun _ xs => eraseKey k xs)).addRoot
-                (if Cfg.patched.detachOnRemove = true then detachFrom .dict c else c)).ok = true := by
+                (if (Cfg.fixedWith lcs nb scp).detachOnRemove = true then detachFrom .dict c else c)).ok = true := by
               apply addRoot_ok _ _ (mapAt_ok f t _ (erase_local t k) hf)
-              simp only [Cfg.patched, if_true]
+              simp only [Cfg.fixedWith, if_true]
               have hmem : (k, c) ∈ its := List.mem_of_getLast? hlast
               rw [okItems_mem] at hits
               exact detachFrom_ok .dict (hits (k, c) hmem)
@@ -349,13 +349,63 @@ theorem C01_step (f : Forest) (n : Bool) (op : Op) (hf : f.ok = true) :
         · exact hf
         · exact clearAndNotify_ok f n t m its hf hits
 
+/-- … in particular on the patched tree … -/
+theorem C01_step (f : Forest) (n : Bool) (op : Op) (hf : f.ok = true) :
+    (stepA Cfg.patched f n op).forest.ok = true :=
+  C01_step_cfg (lcs := true) (nb := true) (scp := none) f n op hf
+
+/-- … and for a call that runs inside `with pg.allow_partial(b):` (configurations with a scope). -/
+theorem C01_step_scoped (b : Bool) (f : Forest) (n : Bool) (op : Op) (hf : f.ok = true) :
+    (stepA { Cfg.patched with scopePartial := some b } f n op).forest.ok = true :=
+  C01_step_cfg (lcs := true) (nb := true) (scp := some b) f n op hf
+
+/-- **C01, full step theorem**: on the patched tree every operation maps a well-formed forest
+(beliefs agree with positions, node ids distinct and below the counter, list keys are the
+positions, dict / object keys distinct, no node object in two places) to a well-formed forest.
+Hypotheses: the call is a well-formed *encoding* (`wellKeyed`: a dict literal has distinct keys —
+Python cannot write anything else), and the model did not have to put one node object in two
+places during the call (the decidable mark `aliased`, reported by the driver after every step and
+never set in any run against the real code; with F79 unpatched `l.insert(0, l[0])` sets it, see
+`C01_counterexample_F79`). No admissibility hypothesis: a diverging call (F30) has no after-state
+(`stepA` leaves the forest alone). -/
+theorem C01_step_Full_cfg {lcs nb : Bool} {scp : Option Bool} (f : Forest) (n : Bool) (op : Op) (hf : f.wf = true)
+    (hk : wellKeyed op = true) (hal : (stepA (Cfg.fixedWith lcs nb scp) f n op).forest.aliased = false) :
+    (stepA (Cfg.fixedWith lcs nb scp) f n op).forest.wf = true := by
+  rw [wf_iff] at hf ⊢
+  exact ⟨C01_step_cfg f n op hf.1, stepA_inv _ f n op hf.2.1 hk hal, hal, stepA_pool _ f n op hf.2.2.2⟩
+
+theorem C01_step_Full (f : Forest) (n : Bool) (op : Op) (hf : f.wf = true) (hk : wellKeyed op = true)
+    (hal : (stepA Cfg.patched f n op).forest.aliased = false) :
+    (stepA Cfg.patched f n op).forest.wf = true :=
+  C01_step_Full_cfg (lcs := true) (nb := true) (scp := none) f n op hf hk hal
+
+/-- the full invariant for a call inside `with pg.allow_partial(b):`. -/
+theorem C01_step_Full_scoped (b : Bool) (f : Forest) (n : Bool) (op : Op) (hf : f.wf = true) (hk : wellKeyed op = true)
+    (hal : (stepA { Cfg.patched with scopePartial := some b } f n op).forest.aliased = false) :
+    (stepA { Cfg.patched with scopePartial := some b } f n op).forest.wf = true :=
+  C01_step_Full_cfg (lcs := true) (nb := true) (scp := some b) f n op hf hk hal
+
+/-- the representation half (ids distinct and bounded, key shapes) needs none of the fixes: it is
+preserved by every operation on *every* configuration of the tree — the defects F02 / F03 / F78 /
+F17 only ever damage beliefs and flags, never the identity of nodes or the keys of payloads. -/
+theorem C01_step_rep (cfg : Cfg) (f : Forest) (n : Bool) (op : Op) (hf : f.repOk = true) (hk : wellKeyed op = true)
+    (hal : (stepA cfg f n op).forest.aliased = false) : (stepA cfg f n op).forest.repOk = true := by
+  rw [repOk_iff] at hf ⊢
+  exact ⟨stepA_inv cfg f n op hf.1 hk hal, stepA_pool cfg f n op hf.2⟩
+
+/-- a dict literal with a repeated key is not a call anybody can write; the model would store
+both items (why `wellKeyed` is a hypothesis of `C01_step_Full`). -/
+theorem C01_wellKeyed_needed :
+    (stepA Cfg.patched Forest.empty true
+      (.new (.node .dict false true false [(.s 0, .atom .none), (.s 0, .atom .none)]))).forest.wf = false := by decide
+
 /-- **Removed / replaced nodes are detached**: if no tree held by the program claims a parent, the
 same holds after every operation of `ValueFree` — in particular the values that `del`, `pop`,
 `remove`, `clear`, `popitem` and slice deletion take out of a container become roots of the
 forest whose believed parent is none (and they are gone from the payload: `dropAll`,
 `rawDelList`, `rawDelMany`, `eraseKey`). -/
-theorem C01_removed_detached (f : Forest) (n : Bool) (op : Op) (hf : f.rootsFree = true) (hp : ValueFree op = true) :
-    (stepA Cfg.patched f n op).forest.rootsFree = true := by
+theorem C01_removed_detached_cfg {lcs nb : Bool} {scp : Option Bool} (f : Forest) (n : Bool) (op : Op) (hf : f.rootsFree = true) (hp : ValueFree op = true) :
+    (stepA (Cfg.fixedWith lcs nb scp) f n op).forest.rootsFree = true := by
   unfold stepA
   split
   · exact hf
@@ -499,13 +549,15 @@ theorem C01_removed_detached (f : Forest) (n : Bool) (op : Op) (hf : f.rootsFree
         simp only [step, hfind]
         split
         · exact hf
+        split
+        · exact hf
         · split
           · exact hf
           · next k c hlast =>
             have h1 : ((f.mapAt t (fun _ xs => eraseKey k xs)).addRoot
-                (if Cfg.patched.detachOnRemove = true then detachFrom .dict c else c)).rootsFree = true := by
+                (if (Cfg.fixedWith lcs nb scp).detachOnRemove = true then detachFrom .dict c else c)).rootsFree = true := by
               apply addRoot_free _ _ (mapAt_free f t _ hf)
-              simp only [Cfg.patched, if_true]
+              simp only [Cfg.fixedWith, if_true]
               exact detachFrom_parentless _ _
             simp only
             split
@@ -524,12 +576,11 @@ theorem C01_removed_detached (f : Forest) (n : Bool) (op : Op) (hf : f.rootsFree
         · exact clearAndNotify_free f n t m its hf
 
 
-/-! ## Histories -/
+theorem C01_removed_detached (f : Forest) (n : Bool) (op : Op) (hf : f.rootsFree = true) (hp : ValueFree op = true) :
+    (stepA Cfg.patched f n op).forest.rootsFree = true :=
+  C01_removed_detached_cfg (lcs := true) (nb := true) (scp := none) f n op hf hp
 
-/-- a history: calls with the state of `notify_on_change` they run under. -/
-def runHist (cfg : Cfg) (f : Forest) : List (Bool × Op) → Forest
-  | [] => f
-  | (n, op) :: rest => runHist cfg (stepA cfg f n op).forest rest
+/-! ## Histories -/
 
 theorem C01_history_final (hist : List (Bool × Op)) : ∀ (f : Forest), f.ok = true →
     (runHist Cfg.patched f hist).ok = true := by
@@ -549,6 +600,33 @@ theorem C01_history (f : Forest) (hist : List (Bool × Op)) (hf : f.ok = true) (
 
 theorem C01_reachable (hist : List (Bool × Op)) : (runHist Cfg.patched Forest.empty hist).ok = true :=
   C01_history_final hist Forest.empty (by decide)
+
+theorem C01_history_Full_final (hist : List (Bool × Op)) : ∀ (f : Forest), f.wf = true →
+    (∀ s ∈ hist, wellKeyed s.2 = true) → (runHist Cfg.patched f hist).aliased = false →
+    (runHist Cfg.patched f hist).wf = true := by
+  induction hist with
+  | nil => intro f hf _ _; exact hf
+  | cons s rest ih =>
+    intro f hf hk hal
+    obtain ⟨n, op⟩ := s
+    simp only [runHist] at hal ⊢
+    have hal1 := unal_of_rise (runHist_rise Cfg.patched rest _) hal
+    exact ih _ (C01_step_Full f n op hf (hk (n, op) (by simp)) hal1) (fun s hs => hk s (by simp [hs])) hal
+
+/-- **C01 over histories, full invariant**: if the state at the end of a history does not carry
+the mark `aliased` (the mark is never cleared), then *every* state on the way — every prefix —
+is well-formed, from every well-formed start. -/
+theorem C01_history_Full (f : Forest) (hist : List (Bool × Op)) (hf : f.wf = true)
+    (hk : ∀ s ∈ hist, wellKeyed s.2 = true) (hal : (runHist Cfg.patched f hist).aliased = false) (k : Nat) :
+    (runHist Cfg.patched f (hist.take k)).wf = true :=
+  C01_history_Full_final (hist.take k) f hf (fun s hs => hk s (List.mem_of_mem_take hs))
+    (runHist_prefix_unal Cfg.patched f hist k hal)
+
+/-- … in particular everything a program can build from nothing. -/
+theorem C01_reachable_Full (hist : List (Bool × Op)) (hk : ∀ s ∈ hist, wellKeyed s.2 = true)
+    (hal : (runHist Cfg.patched Forest.empty hist).aliased = false) :
+    (runHist Cfg.patched Forest.empty hist).wf = true :=
+  C01_history_Full_final hist Forest.empty (by decide) hk hal
 
 /-- the empty forest is well-formed (base case). -/
 theorem C01_empty : Forest.empty.wf = true := by decide
